@@ -722,6 +722,10 @@ class PybindWrapper:
         # Instantiate all templates
         module = instantiator.instantiate_namespace(module)
 
+        # The docstring parser counts the overloads it has served so far;
+        # start afresh for every file wrapped with this object.
+        self.xml_parser = XMLDocParser()
+
         wrapped_namespace, includes = self.wrap_namespace(module)
 
         if self.use_boost_serialization:
